@@ -844,6 +844,7 @@ func (e *Enc) evalCall(n *ast.CallExpr, env *Env) Val {
 		return e.bad("len of unsupported type", n)
 	case "old":
 		oe := *env
+		oe.loop = nil
 		oe.st = env.old
 		if env.oldVars != nil {
 			oe.vars = env.oldVars
